@@ -127,12 +127,13 @@ fn l2_options(opts: &Opts, unit: u64, preset: Option<Vec<u8>>) -> LZMA2Options {
     l2
 }
 
-fn mt_write(fmt: Fmt, opts: &Opts, unit: u64, workers: u32, data: &[u8], plan: &Plan, flush_mid: bool) -> io::Result<Vec<u8>> {
+#[allow(clippy::too_many_arguments)]
+fn mt_write(fmt: Fmt, opts: &Opts, unit: u64, workers: u32, data: &[u8], plan: &Plan, flush_mid: bool, preset: Option<Vec<u8>>) -> io::Result<Vec<u8>> {
     let pieces = plan.pieces(data);
     let mid = pieces.len() / 2;
     match fmt {
         Fmt::Lzma2 => {
-            let mut w = LZMA2WriterMT::new(Vec::new(), l2_options(opts, unit, None), workers)?;
+            let mut w = LZMA2WriterMT::new(Vec::new(), l2_options(opts, unit, preset), workers)?;
             for (i, p) in pieces.iter().enumerate() {
                 w.write_all(p)?;
                 if flush_mid && i == mid {
@@ -159,15 +160,23 @@ fn mt_write(fmt: Fmt, opts: &Opts, unit: u64, workers: u32, data: &[u8], plan: &
 }
 
 fn mt_read<R: Read + io::Seek>(fmt: Fmt, src: R, dict: u32, preset: Option<&[u8]>, workers: u32, sizes: &[u32], cap: usize) -> io::Result<(Vec<u8>, u64)> {
+    // every call must return: also the calls after an error and after the end of the stream
+    let mut again = [0u8; 64];
     match fmt {
         Fmt::Lzma2 => {
             let mut r = LZMA2ReaderMT::new(src, dict, preset, workers);
-            let out = read_all(&mut r, sizes, cap)?;
+            let out = read_all(&mut r, sizes, cap);
+            let _ = r.read(&mut again);
+            let _ = r.read(&mut again);
+            let out = out?;
             Ok((out, r.chunk_count()))
         }
         Fmt::Lzip => {
             let mut r = LZIPReaderMT::new(src, workers)?;
-            let out = read_all(&mut r, sizes, cap)?;
+            let out = read_all(&mut r, sizes, cap);
+            let _ = r.read(&mut again);
+            let _ = r.read(&mut again);
+            let out = out?;
             Ok((out, r.member_count() as u64))
         }
     }
@@ -191,8 +200,14 @@ fn st_read(fmt: Fmt, stream: &[u8], dict: u32, preset: Option<&[u8]>, cap: usize
 
 #[derive(Clone, Debug, Serialize, Deserialize, PartialEq)]
 pub enum Src {
-    /// stream written by the MT writer inside the schedule
-    MtWriter { flush_mid: bool },
+    /// stream written by the MT writer inside the schedule (optionally given a preset
+    /// dictionary, which the MT writer documents to ignore: units are independent)
+    MtWriter { flush_mid: bool, preset: Option<Data> },
+    /// ST LZMA2 writer flushed every `every` bytes: many chunks per unit, uncompressed chunks
+    /// followed by LZMA chunks with state / property resets but no dictionary reset
+    StFlushed { every: u32, chunked: bool },
+    /// LZIP file concatenated from separately written members, empty ones included
+    LzipParts { parts: Vec<Data> },
     /// ST writer with chunk/member size (independent units)
     StUnits,
     /// ST writer without chunk size: one unit of dependent chunks (LZMA2 only)
@@ -230,12 +245,18 @@ impl Property for C08 {
     const ID: &'static str = "C08";
 
     fn families(_tier: Tier) -> u32 {
-        6
+        9
     }
 
     fn strategy(tier: Tier, family: u32) -> BoxedStrategy<Case8> {
         let src = match family {
-            0 | 1 => any::<bool>().prop_map(|flush_mid| Src::MtWriter { flush_mid }).boxed(),
+            0 | 1 => (any::<bool>(), prop_oneof![2 => Just(None), 1 => data_strategy(2, 3000).prop_map(Some)])
+                .prop_map(|(flush_mid, preset)| Src::MtWriter { flush_mid, preset })
+                .boxed(),
+            6 | 7 => (200u32..4000, any::<bool>()).prop_map(|(every, chunked)| Src::StFlushed { every, chunked }).boxed(),
+            8 => proptest::collection::vec(prop_oneof![2 => Just(Data::default()), 3 => data_strategy(2, 3000)], 1..7)
+                .prop_map(|parts| Src::LzipParts { parts })
+                .boxed(),
             2 => Just(Src::StUnits).boxed(),
             3 => Just(Src::StDependent).boxed(),
             4 => (data_strategy(2, 3000), any::<bool>()).prop_map(|(preset, chunked)| Src::StPreset { preset, chunked }).boxed(),
@@ -263,8 +284,9 @@ impl Property for C08 {
         )
             .prop_map(move |(data, opts, lzip, unit_half_mult, src, workers_w, workers_r, plan, sizes, sched)| {
                 let fmt = match &src {
-                    Src::StDependent | Src::StPreset { .. } => Fmt::Lzma2,
-                    Src::LzipTrailing { .. } => Fmt::Lzip,
+                    Src::StDependent | Src::StPreset { .. } | Src::StFlushed { .. } => Fmt::Lzma2,
+                    Src::MtWriter { preset: Some(_), .. } => Fmt::Lzma2,
+                    Src::LzipTrailing { .. } | Src::LzipParts { .. } => Fmt::Lzip,
                     _ => {
                         if lzip {
                             Fmt::Lzip
@@ -303,7 +325,7 @@ impl Property for C08 {
     }
 
     fn floors(_tier: Tier) -> Vec<(&'static str, f64)> {
-        vec![("multi_unit", 40.0), ("out_of_order", 2.0), ("two_workers", 8.0), ("mt_writer", 20.0), ("dependent_or_preset", 15.0)]
+        vec![("multi_unit", 30.0), ("out_of_order", 2.0), ("two_workers", 8.0), ("mt_writer", 15.0), ("dependent_or_preset", 15.0), ("flushed", 10.0), ("mt_writer_preset", 3.0), ("empty_unit_inside", 2.0)]
     }
 
     fn assumptions() -> Vec<&'static str> {
@@ -334,10 +356,51 @@ impl Property for C08 {
 
         // streams produced outside the scheduler
         let mut preset_bytes: Option<Vec<u8>> = None;
+        let mut writer_preset: Option<Vec<u8>> = None;
+        let mut model_data: Option<Vec<u8>> = None;
         let pre_stream: Option<Vec<u8>> = match &case.src {
-            Src::MtWriter { .. } => {
+            Src::MtWriter { preset, .. } => {
                 obs.class("mt_writer");
+                writer_preset = preset.as_ref().map(|p| p.expand()).filter(|p| !p.is_empty());
+                obs.class_if(writer_preset.is_some(), "mt_writer_preset");
                 None
+            }
+            Src::StFlushed { every, chunked } => {
+                obs.class("dependent_or_preset");
+                obs.class("flushed");
+                let mut l2 = l2_options(&opts, unit, None);
+                if !*chunked {
+                    l2.chunk_size = None;
+                }
+                let d = data.clone();
+                let every = (*every as usize).max(1);
+                let s = no_panic("st-flushed-write", move || -> io::Result<Vec<u8>> {
+                    let mut w = lzma_rust2::LZMA2Writer::new(Vec::new(), l2);
+                    for c in d.chunks(every) {
+                        w.write_all(c)?;
+                        w.flush()?;
+                    }
+                    w.finish()
+                })?
+                .map_err(|e| Failure::new("harness:st-write", e.to_string()))?;
+                Some(s)
+            }
+            Src::LzipParts { parts } => {
+                obs.class("lzip_parts");
+                let mut s = Vec::new();
+                let mut all = Vec::new();
+                let mut empties_inside = false;
+                for (i, p) in parts.iter().enumerate() {
+                    let d = p.expand();
+                    if d.is_empty() && i > 0 && i + 1 < parts.len() {
+                        empties_inside = true;
+                    }
+                    s.extend_from_slice(&encode_lzip(&d, &LzipCfg { opts: opts.clone(), member: None }, &Plan::All)?);
+                    all.extend_from_slice(&d);
+                }
+                obs.class_if(empties_inside, "empty_unit_inside");
+                model_data = Some(all);
+                Some(s)
             }
             Src::StUnits => Some(match fmt {
                 Fmt::Lzma2 => encode_lzma(&data, &opts, None, &Framing::Lzma2 { chunk: Some(unit) }, &Plan::Fixed(1500))?,
@@ -369,7 +432,8 @@ impl Property for C08 {
                 let r = no_panic("st-model", || st_read(fmt, s, dict, preset_bytes.as_deref(), cap))?;
                 match r {
                     Ok(o) => {
-                        if o != *data {
+                        let want: &[u8] = model_data.as_deref().unwrap_or(&data);
+                        if o != want {
                             return Err(Failure::new("harness:st-model", "ST reader does not return the data (C01/C02 territory)"));
                         }
                         Arc::new(o)
@@ -382,7 +446,8 @@ impl Property for C08 {
         let plan = case.plan.clone();
         let sizes = case.sizes.clone();
         let (ww, wr) = (case.workers_w, case.workers_r);
-        let flush_mid = matches!(case.src, Src::MtWriter { flush_mid: true });
+        let flush_mid = matches!(case.src, Src::MtWriter { flush_mid: true, .. });
+        let wp = writer_preset.map(Arc::new);
         let pre = pre_stream.map(Arc::new);
         let preset_arc = preset_bytes.map(Arc::new);
         let d2 = data.clone();
@@ -391,14 +456,22 @@ impl Property for C08 {
             let stream: Vec<u8> = match &pre {
                 Some(s) => s.as_ref().clone(),
                 None => {
-                    let s = match mt_write(fmt, &opts, unit, ww, &d2, &plan, flush_mid) {
+                    let s = match mt_write(fmt, &opts, unit, ww, &d2, &plan, flush_mid, wp.as_ref().map(|p| p.as_ref().clone())) {
                         Ok(s) => s,
                         Err(e) => vfail("mt-writer-error", format!("{e}")),
                     };
-                    match st_read(fmt, &s, dict, None, cap) {
-                        Ok(o) if o == *d2 => {}
-                        Ok(o) => vfail("mt-written-st-decoded-mismatch", first_diff(&o, &d2)),
-                        Err(e) => vfail("mt-written-st-rejected", format!("{e}")),
+                    // units are independent: the stream decodes without the preset dictionary
+                    // (and, since every unit starts with a dictionary reset, also with it)
+                    for with in [false, true] {
+                        let p = if with { wp.as_ref().map(|p| p.as_slice()) } else { None };
+                        if with && p.is_none() {
+                            continue;
+                        }
+                        match st_read(fmt, &s, dict, p, cap) {
+                            Ok(o) if o == *d2 => {}
+                            Ok(o) => vfail("mt-written-st-decoded-mismatch", first_diff(&o, &d2)),
+                            Err(e) => vfail("mt-written-st-rejected", format!("{e} (reader preset: {with})")),
+                        }
                     }
                     s
                 }
@@ -646,6 +719,20 @@ impl Property for C09 {
         // reader scenarios: the stream is built outside the scheduler with the ST writer
         let mut stream = match fmt {
             Fmt::Lzma2 => encode_lzma(&data, &case.opts, None, &Framing::Lzma2 { chunk: Some(unit) }, &Plan::Fixed(1500))?,
+            Fmt::Lzip if case.unit_half_mult == 1 => {
+                // members written separately, with empty members in between (cat a.lz empty.lz b.lz)
+                obs.class("empty_members");
+                let cfg = LzipCfg { opts: case.opts.clone(), member: None };
+                let empty = encode_lzip(&[], &cfg, &Plan::All)?;
+                let third = data.len() / 3;
+                let mut s = encode_lzip(&data[..third], &cfg, &Plan::All)?;
+                s.extend_from_slice(&empty);
+                s.extend_from_slice(&encode_lzip(&data[third..2 * third], &cfg, &Plan::All)?);
+                s.extend_from_slice(&empty);
+                s.extend_from_slice(&empty);
+                s.extend_from_slice(&encode_lzip(&data[2 * third..], &cfg, &Plan::All)?);
+                s
+            }
             Fmt::Lzip => encode_lzip(&data, &LzipCfg { opts: case.opts.clone(), member: Some(unit) }, &Plan::Fixed(1500))?,
         };
         let mut err_at: Option<(usize, io::ErrorKind)> = None;
